@@ -372,10 +372,11 @@ def check_result(c: PassModel, new, key, before):
     return probs
 
 
-def post_problems(P: Passes, c: PassModel, new: PassModel, key, literal=False):
+def post_problems(P: Passes, c: PassModel, new: PassModel, key, literal=False, run=None):
     """Stated post-conditions (C18).  `literal`: `new` is the result of the public entry point (`transform`, with the
     pre-/post-passes the class declares): the post-condition must hold for it as it stands."""
     probs = []
+    run = run or (P.run if P is not None else None)    # `run(key, model)`: how a pass is applied once more to a result
     name = key.split('(')[0]
     if name == 'RemoveRedundantGates' and not literal:
         want = c.reachable() | (set() if '(' in key else set(c._inputs))
@@ -383,7 +384,7 @@ def post_problems(P: Passes, c: PassModel, new: PassModel, key, literal=False):
             probs.append(f'gates {sorted(new._gates)} instead of exactly the reachable ones {sorted(want)}')
         new.order = c.order
         try:
-            again = P.run(key, new)
+            again = run(key, new)
             if again.struct() != new.struct():
                 probs.append('applying the pass a second time changes the circuit again')
         except InterpRaise as e:
@@ -395,7 +396,7 @@ def post_problems(P: Passes, c: PassModel, new: PassModel, key, literal=False):
         fin = new
     else:
         try:
-            fin = P.run('RemoveRedundantGates', new)
+            fin = run('RemoveRedundantGates', new)
         except InterpRaise as e:
             return [f'implied RemoveRedundantGates raises {e.exc_name}']
     if name == 'MergeDuplicateGates':
@@ -487,7 +488,15 @@ def fold_passes(ck: Checker, R_common: str, R_post: str | None = None, only=None
                 common.append(f'{pr[0]} on {desc}')
                 continue
             if R_post:
-                pp = post_problems(P, c, new, key)
+                # (results are run through the passes again on the same kind of instance they were computed on)
+                new._real = rnew
+
+                def real_run(k, model):
+                    out = RB.call(real_passes[k], '_transform', model._real)
+                    mo = RB.model(out)
+                    mo._real = out
+                    return mo
+                pp = post_problems(P, c, new, key, run=real_run)
                 if pp:
                     post.append(f'{pp[0]} on {desc}')
             if len(common) > 3 or len(post) > 3:
@@ -514,7 +523,13 @@ def fold_passes(ck: Checker, R_common: str, R_post: str | None = None, only=None
                     common.append(f'{pr[0]} on {desc}')
                     continue
                 if R_post:
-                    pp = post_problems(P, c, new, key)
+                    try:
+                        pp = post_problems(P, c, new, key)
+                    except AnalysisError as e:
+                        # (the implied RemoveRedundantGates is outside the oracle-traversal model: decided on real instances above)
+                        oracle_model_applies = False
+                        ck.notes.setdefault('structural_rules_not_applicable', []).append(f'oracle-traversal model of the pass implied by {key}: {str(e)[:160]} [decided on instances of the repository\'s Circuit class]')
+                        break
                     if pp:
                         post.append(f'{pp[0]} on {desc}')
             if len(common) > 3 or len(post) > 3 or not oracle_model_applies:
